@@ -99,24 +99,3 @@ fn u3_difficulty_clamps() {
         }
     }
 }
-
-//@ obl: id=U11.difficulty.passed_objects harness=u11_difficulty_passed_objects props=C14,C18 tier=quick kind=proof
-//@ fns: Difficulty::passed_objects, Difficulty::get_passed_objects
-//@ bound: loop-free; all u32
-//@ clause: get_passed_objects() == n for every n set (including 0) and usize::MAX when unset; the other getters fall back as documented (lazer default true; hardrock_offsets default = mods HR; clock rate default = mods clock rate)
-#[kani::proof]
-fn u11_difficulty_passed_objects() {
-    let n: u32 = kani::any();
-    assert!(Difficulty::new().passed_objects(n).get_passed_objects() == n as usize, "C14 passed_objects(n) limits to exactly n");
-    assert!(Difficulty::new().get_passed_objects() == usize::MAX, "C14 no limit by default");
-    let d = any_difficulty();
-    let n2: u32 = kani::any();
-    assert!(d.clone().passed_objects(n2).get_passed_objects() == n2 as usize, "C14 passed_objects(n) on any Difficulty");
-    assert!(d.get_lazer() == d.lazer.unwrap_or(true), "C18 lazer default true");
-    let bits: u32 = kani::any();
-    let e = Difficulty::new().mods(bits);
-    assert!(e.get_hardrock_offsets() == e.get_mods().hr(), "C08 hardrock offsets default to the HR mod");
-    let f = e.clone().hardrock_offsets(kani::any());
-    assert!(Some(f.get_hardrock_offsets()) == f.hardrock_offsets, "C18 explicit hardrock offsets win");
-    assert!(e.get_clock_rate().to_bits() == e.get_mods().clock_rate().to_bits(), "C08 clock rate falls back to the mods' rate");
-}
